@@ -155,7 +155,7 @@ class YPPrologCompiler:
         self.cut_if_counter = 0
     def _debug(self,*args):
         if self.context.debug_generator:
-            self.context.outf.write('# ' + " ".join([str(a) for a in args]) + '\n')
+            self.context.outf.write(comment_line(" ".join([str(a) for a in args])))
     def push_bound_vars(self,variables):
         self.bound_vars.append(self.bound_vars[-1] + variables)
     def pop_bound_vars(self):
@@ -442,7 +442,7 @@ class YPPythonCodeGenerator:
     def generate(self,code):
         """code is a YPCode, output is a string"""
         if self.context.debug_filename:
-            s = f'# from {self.context.current_source_file}\n#\n\n'
+            s = comment_line(f'from {self.context.current_source_file}') + '#\n\n'
         else:
             s = '\n'
         return _output_header + s + code.generate(self)
